@@ -276,10 +276,18 @@ func c17Send(p *chk.Prog, r *chk.Report) {
 		g := f.Graph()
 		n := 0
 		for _, callee := range []string{"sendUpdate", "sendWithdraw", "sendKeepalive"} {
-			for _, e := range g.EdgesImplying(g.GErrNil(false, callee+"(RECV.conn, ETC)")) {
+			for _, e := range g.DirectEdgesImplying(g.GErrNil(false, callee+"(RECV.conn, ETC)")) {
 				n++
 				w1 := g.BranchAlways(e, f.ContainsCallTo(sess+"abort"))
 				w2 := g.BranchAlways(e, func(nd ast.Node) bool { _, ok := nd.(*ast.ReturnStmt); return ok })
+				// the branch may continue behind a join (a helper that reports failure to its caller, which returns):
+				// decided again along feasible paths - abort before anything else ends, return before the next iteration
+				if w1.Found && !g.FeasibleEscape(e, f.ContainsCallTo(sess+"abort"), nil, chk.IsLoopHead) {
+					w1.Found = false
+				}
+				if w2.Found && !g.FeasibleEscape(e, func(nd ast.Node) bool { _, ok := nd.(*ast.ReturnStmt); return ok }, nil, chk.IsLoopHead) {
+					w2.Found = false
+				}
 				pos := e.B.Nodes[len(e.B.Nodes)-1].Pos()
 				x.Check(name+":failed-"+callee+"#"+itoa(n), pos, !w1.Found && !w2.Found, "", "a failing "+callee+" does not abort the connection and return: the session keeps a half-written stream / never resends")
 			}
@@ -501,9 +509,10 @@ func c17Diff(p *chk.Prog, r *chk.Report) {
 		c := commits[0]
 		okC = g.AfterLoop(c, diffNew) && g.AfterLoop(c, diffOld)
 		for _, callee := range []string{"sendUpdate", "sendWithdraw"} {
-			for _, e := range g.EdgesImplying(g.GErrNil(false, callee+"(RECV.conn, ETC)")) {
+			for _, e := range g.DirectEdgesImplying(g.GErrNil(false, callee+"(RECV.conn, ETC)")) {
 				st := chk.Site{G: g, B: e.B.Succs[e.K], I: 0}
-				if (&chk.Walk{G: g, From: st, Inclusive: true, Hit: func(n ast.Node) bool { return n == c.Top }}).Run().Found {
+				if (&chk.Walk{G: g, From: st, Inclusive: true, Hit: func(n ast.Node) bool { return n == c.Top }}).Run().Found &&
+					g.FeasiblyReaches(e, func(n ast.Node) bool { return n == c.Top }) {
 					okC = false
 				}
 			}
